@@ -89,6 +89,8 @@ type be struct {
 	monitoring bool // monitorPing has not yet sent on monitorChan
 	detached   bool // seen absent from the controller after some event
 	ownerB     bool // belongs to the second volume's controller
+	exited     bool // ViaRPC: the replica process behind this backend has exited (the rpc server's Fatal after an EIO)
+	exitSeen   bool
 	realMon    bool // watched by the real monitorPing goroutine (Cfg.RealMon)
 	tick       chan vtime.Time
 	cconn      net.Conn
@@ -244,7 +246,20 @@ func setup() {
 	setupOnce.Do(func() {
 		logrus.SetOutput(lockedWriter{})
 		logrus.SetLevel(logrus.ErrorLevel)
-		logrus.StandardLogger().ExitFunc = func(int) { panic(fatalExit{"logrus.Fatal"}) }
+		logrus.StandardLogger().ExitFunc = func(int) {
+			// the real rpc server ends the replica PROCESS after it has answered a request that failed with EIO: for a
+			// server goroutine of a ViaRPC backend that is the end of that goroutine and of its connection
+			exitMu.Lock()
+			b := pendingExit[goid()]
+			delete(pendingExit, goid())
+			exitMu.Unlock()
+			if b != nil {
+				b.exited = true
+				b.sconn.Close()
+				runtime.Goexit()
+			}
+			panic(fatalExit{"logrus.Fatal"})
+		}
 		http.DefaultTransport = transport{}
 		installHooks()
 	})
@@ -334,6 +349,13 @@ func (x nodeIOs) ReadAt(b []byte, off int64) (int, error) {
 	ioMu.Lock()
 	defer ioMu.Unlock()
 	if err := x.pre("R"); err != nil {
+		if x.cl.cfg.ViaRPC && len(b) >= 2 {
+			// behind the real rpc server a failing read is what a replica produces when a later extent of the range
+			// cannot be read: the first half is filled in, then the error (count > 0 together with an error)
+			half := len(b) / 2
+			x.cl.nodes[x.b.node].ReadAt(b[:half], off)
+			return half, &os.PathError{Op: "read", Path: fmt.Sprintf("/node%d/volume-snap.img", x.b.node), Err: syscall.EIO}
+		}
 		return 0, err
 	}
 	n, err := x.cl.nodes[x.b.node].ReadAt(b, off)
@@ -412,8 +434,44 @@ func (f factory) Create(address string) (types.Backend, error) {
 	return r, nil
 }
 
+// awaitExits: a replica process that exited has closed its connection; the rpc client notices on its own goroutine and
+// leaves a token on the backend's closeChan.  Wait for it (a condition, not a delay), so that what the next event sees
+// does not depend on a race.
+func (cl *cluster) awaitExits() {
+	for _, b := range cl.bes {
+		exitMu.Lock()
+		ex := b.exited && !b.exitSeen
+		exitMu.Unlock()
+		if !ex {
+			continue
+		}
+		b.exitSeen = true
+		deadline := time.Now().Add(60 * time.Second)
+		for len(b.r.VerifCloseChan()) == 0 && time.Now().Before(deadline) {
+			if b.realMon {
+				break // the real monitor goroutine takes the token itself
+			}
+			time.Sleep(100 * time.Microsecond)
+		}
+	}
+}
+
 // rpcData makes a node's data calls the data processor of the real rpc server.
 type rpcData struct{ nodeIOs }
+
+// pendingExit: server goroutine -> backend whose data call has just failed with EIO (the server will log Fatal).
+var pendingExit = map[int64]*be{}
+var exitMu sync.Mutex
+
+func (d rpcData) ReadAt(b []byte, off int64) (int, error) {
+	n, err := d.nodeIOs.ReadAt(b, off)
+	if pe, ok := err.(*os.PathError); ok && pe.Err == syscall.EIO {
+		exitMu.Lock()
+		pendingExit[goid()] = d.b
+		exitMu.Unlock()
+	}
+	return n, err
+}
 
 func (d rpcData) PingResponse() error {
 	if d.cl.failPing[d.b.node] {
